@@ -33,6 +33,16 @@ type ConcCase struct {
 	Cfg     Cfg    `json:"config"`
 	Prefill []Op   `json:"prefill,omitempty"`
 	Tasks   [][]Op `json:"tasks"`
+	// Mode names the engine options that change how the run ends and which oracles look at it
+	// (a property may have several concurrent engines); a replay file carries it along.
+	Mode *ConcMode `json:"mode,omitempty"`
+}
+
+type ConcMode struct {
+	Lin        bool `json:"lin,omitempty"`
+	Rounds     bool `json:"rounds,omitempty"`
+	NoCleanup  bool `json:"no_cleanup,omitempty"`
+	SweepCheck bool `json:"sweep_check,omitempty"`
 }
 
 // HistOp is one recorded operation of a client task.
@@ -116,6 +126,11 @@ func RunConc(seed uint64, cc *ConcCase, schedule []simrt.Deviation, replay bool,
 func runConc(seed uint64, cc *ConcCase, schedule []simrt.Deviation, replay bool, opts *ConcOpts, strat simrt.Strategy) *ConcOutcome {
 	out := &ConcOutcome{Probes: map[string]int{}}
 	cfg := cc.Cfg
+	if m := cc.Mode; m != nil {
+		o2 := *opts
+		o2.Lin, o2.Rounds, o2.NoCleanup, o2.SweepCheck = m.Lin, m.Rounds, m.NoCleanup, m.SweepCheck
+		opts = &o2
+	}
 	cr := &concRun{cc: cc, opts: opts, probe: out.Probes, taskFinish: map[int]uint64{}}
 	scfg := simrt.Config{Seed: seed, Parallelism: cfg.Parallelism, HashMode: cfg.HashMode, PoolMode: cfg.PoolMode,
 		ClockOrigin: cfg.ClockOrigin, MaxSteps: 3_000_000, Strat: strat, Replay: schedule, ReplayMode: replay}
